@@ -9,10 +9,13 @@ package main
 // A separate malformed stream (rune-level mutations, truncations, wrong types, wrong shapes) checks the error side.
 
 import (
+	"encoding/json"
 	"fmt"
 	"strings"
 
 	"github.com/elnosh/gonuts/cashu/nuts/nut10"
+	"github.com/elnosh/gonuts/cashu/nuts/nut11"
+	"github.com/elnosh/gonuts/cashu/nuts/nut14"
 )
 
 func init() {
@@ -385,6 +388,145 @@ var n10Shapes = []string{
 	`["P2PK", {"nonce":"n","data":"d","tags":[["sigflag","SIG_ALL"]]}]`,
 }
 
+// ---- witnesses
+
+func n10WitnessImpl(htlc bool, text string) (out string) {
+	defer func() {
+		if r := recover(); r != nil {
+			out = "(panic)"
+		}
+	}()
+	strs := func(xs []string) Sx {
+		el := make([]Sx, len(xs))
+		for i, x := range xs {
+			el[i] = S(x)
+		}
+		return Ls(el)
+	}
+	if htlc {
+		var w nut14.HTLCWitness
+		err := json.Unmarshal([]byte(text), &w)
+		return Render(L(A("w"), B(err == nil), strs(w.Signatures), S(w.Preimage)))
+	}
+	var w nut11.P2PKWitness
+	err := json.Unmarshal([]byte(text), &w)
+	return Render(L(A("w"), B(err == nil), strs(w.Signatures), S("")))
+}
+
+var n10WitnessShapes = []string{
+	``, ` `, `null`, `{}`, `[]`, `"x"`, `0`, `true`, `{"signatures":[]}`, `{"signatures":null}`, `{"signatures":"x"}`, `{"signatures":{}}`, `{"signatures":[1]}`,
+	`{"signatures":["a",1,"b"]}`, `{"signatures":["a",null,"b"]}`, `{"signatures":["a",["x"],"b",{"y":1},true]}`, `{"signatures":["a","b"],"signatures":["c"]}`,
+	`{"signatures":["a","b"],"signatures":[null,null,"d"]}`, `{"signatures":["a","b"],"signatures":null}`, `{"signatures":["a","b"],"signatures":5}`,
+	`{"Signatures":["a"]}`, `{"SIGNATURES":["a"]}`, `{"ſignatureſ":["a"]}`, `{"signature":["a"]}`, `{"preimage":"00","signatures":["a"]}`, `{"preimage":null}`, `{"preimage":5}`,
+	`{"preimage":["00"]}`, `{"PREIMAGE":"00"}`, `{"preimage":"00","preimage":"11"}`, `{"preimage":"00","preimage":null}`, `{"preimage":"00","preimage":1}`,
+	`{"preimage":"00"} `, ` {"preimage":"00"}`, `{"preimage":"00"}x`, `{"preimage":"00",}`, `{"preimage":"00"}`, "{\"preimage\":\"0\n0\"}", `{"signatures":["a",]}`,
+	`{"signatures":["😀","\ud83d"]}`, `{"x":{"signatures":["a"]},"signatures":["b"]}`, `[{"signatures":["a"]}]`, `{"signatures":["a"]}{"signatures":["b"]}`,
+}
+
+func (w *n10Writer) witness(r *Rng, htlc bool) string {
+	type member struct{ k, v string }
+	var ms []member
+	nsig := r.Intn(4)
+	sigs := make([]string, nsig)
+	for i := range sigs {
+		switch r.Intn(8) {
+		case 0:
+			sigs[i] = "null"
+		case 1:
+			sigs[i] = w.junk(1)
+		default:
+			sigs[i] = w.str(n10RandString(r))
+		}
+		sigs[i] = w.sp() + sigs[i] + w.sp()
+	}
+	sv := "[" + w.sp() + strings.Join(sigs, ",") + "]"
+	if r.Chance(10) {
+		sv = w.junk(0)
+	}
+	ms = append(ms, member{"signatures", sv})
+	if htlc || r.Chance(20) {
+		pv := w.str(n10RandString(r))
+		if r.Chance(12) {
+			pv = w.junk(0)
+		}
+		ms = append(ms, member{"preimage", pv})
+	}
+	if r.Chance(30) {
+		ms = append(ms, member{[]string{"x", "sig", "signatures2", "", "pre"}[r.Intn(5)], w.junk(0)})
+	}
+	if r.Chance(15) && len(ms) > 0 {
+		d := ms[r.Intn(len(ms))]
+		d.v = []string{"null", `["z",null,"q"]`, `"p"`, "7"}[r.Intn(4)]
+		ms = append(ms, d)
+	}
+	for i := len(ms) - 1; i > 0; i-- {
+		j := r.Intn(i + 1)
+		ms[i], ms[j] = ms[j], ms[i]
+	}
+	parts := make([]string, len(ms))
+	for i, m := range ms {
+		ks := w.str(m.k)
+		if m.k == "signatures" || m.k == "preimage" {
+			ks = w.key(m.k)
+		}
+		parts[i] = w.sp() + ks + w.sp() + ":" + w.sp() + m.v + w.sp()
+	}
+	return w.sp() + "{" + strings.Join(parts, ",") + "}" + w.sp()
+}
+
+func runNut10Witness(c *Ctx, props []string) {
+	r := c.Rng
+	n := 3000
+	if c.Thorough {
+		n = 40000
+	}
+	type wcase struct {
+		htlc  bool
+		text  string
+		feats string
+	}
+	var cases []wcase
+	for _, s := range n10WitnessShapes {
+		cases = append(cases, wcase{false, s, "shape"}, wcase{true, s, "shape"})
+	}
+	var valid []string
+	for i := 0; i < n; i++ {
+		w := &n10Writer{r: r, ws: r.Chance(40), caseKeys: r.Chance(25)}
+		if r.Chance(30) {
+			w.esc = 25
+		}
+		htlc := r.Bool()
+		t := w.witness(r, htlc)
+		valid = append(valid, t)
+		cases = append(cases, wcase{htlc, t, "generated"})
+	}
+	for i := 0; i < n/2; i++ {
+		t, how := n10Mutate(r, valid[r.Intn(len(valid))])
+		cases = append(cases, wcase{r.Bool(), t, "mutated/" + how})
+	}
+	ops := make([]Sx, len(cases))
+	for i, tc := range cases {
+		k := "p2pk"
+		if tc.htlc {
+			k = "htlc"
+		}
+		ops[i] = L(A("spend.parse-witness"), A(k), S(tc.text))
+	}
+	ans := c.Drv.Batch(ops)
+	for i, tc := range cases {
+		impl := n10WitnessImpl(tc.htlc, tc.text)
+		ok := strings.HasPrefix(impl, "(w true")
+		c.Case(fmt.Sprintf("witness/%s/%v/ok=%v", tc.feats, tc.htlc, ok), true)
+		c.Hist("witness text", fmt.Sprintf("%s ok=%v", strings.SplitN(tc.feats, "/", 2)[0], ok))
+		if i%499 == 0 {
+			c.Sample(map[string]any{"witness_text": tc.text, "htlc": tc.htlc, "impl": impl, "model": ans[i]})
+		}
+		if ans[i] != impl {
+			c.Disagree(props, Render(ops[i]), impl, ans[i], map[string]any{"witness_text": tc.text, "htlc": tc.htlc})
+		}
+	}
+}
+
 func runNut10(c *Ctx) {
 	props := []string{"C12", "C13"}
 	r := c.Rng
@@ -447,6 +589,7 @@ func runNut10(c *Ctx) {
 		}
 		cases = append(cases, tcase{text: text, feats: "mutated/" + how})
 	}
+	runNut10Witness(c, props)
 	ops := make([]Sx, len(cases))
 	for i, tc := range cases {
 		ops[i] = L(A("spend.parse-secret"), S(tc.text))
